@@ -71,7 +71,7 @@ func genValue(c plCase) (playlist.Playlist, *plx.Gen) {
 			ok := true
 			switch c.Focus {
 			case "servercontrol":
-				ok = m.ServerControl != nil || c.Mask == 0
+				ok = m.ServerControl != nil
 			case "map":
 				ok = m.Map != nil
 			case "hint":
@@ -525,10 +525,17 @@ func runPlCase(c plCase) *plResult {
 		f14("second-decoder/"+diffKey(d), "%s", d)
 	}
 	res.obs["second_decoder_checks"]++
-	for _, v := range x.Violations {
-		f15("grammar/"+grammarKey(v), "Marshal output violates the grammar: %s", v)
+	if g.EmptyServerControl {
+		// a server-control value without any attribute is in C14's range (every subset of the
+		// optional fields) but not a "valid value" for C15's encoder clause: the tag then has an
+		// empty attribute list
+		res.obs["values_with_empty_server_control"]++
+	} else {
+		for _, v := range x.Violations {
+			f15("grammar/"+grammarKey(v), "Marshal output violates the grammar: %s", v)
+		}
+		res.obs["grammar_checks"]++
 	}
-	res.obs["grammar_checks"]++
 	// syntactic variants
 	for name, text := range variantsOf(string(b), g.R, c.Kind) {
 		q, err := unmarshalAs(c.Kind, []byte(text))
@@ -658,7 +665,7 @@ func mutateText(text string, rng *rand.Rand) string {
 			break
 		}
 		i := rng.Intn(len(lines))
-		switch rng.Intn(9) {
+		switch rng.Intn(10) {
 		case 0: // delete a line
 			lines = append(lines[:i], lines[i+1:]...)
 		case 1: // duplicate a line
@@ -692,6 +699,39 @@ func mutateText(text string, rng *rand.Rand) string {
 				lines[i] = lines[i][1:]
 			} else {
 				lines[i] = "#" + lines[i]
+			}
+		case 9: // respell an enumerated value (TYPE=AUDIO, METHOD=AES-128, YES ...): other case, or
+			// characters that Unicode case folding maps onto the ASCII letters
+			l := lines[i]
+			var sites [][2]int
+			for _, e := range allIndex(l, '=') {
+				j := e + 1
+				for j < len(l) && (l[j] >= 'A' && l[j] <= 'Z' || l[j] == '-' || l[j] >= '0' && l[j] <= '9') {
+					j++
+				}
+				if j > e+1 && (j == len(l) || l[j] == ',') && strings.ContainsAny(l[e+1:j], "ABCDEFGHIJKLMNOPQRSTUVWXYZ") {
+					sites = append(sites, [2]int{e + 1, j})
+				}
+			}
+			if len(sites) > 0 {
+				st := sites[rng.Intn(len(sites))]
+				v := l[st[0]:st[1]]
+				switch rng.Intn(4) {
+				case 0:
+					v = strings.ToLower(v)
+				case 1:
+					v = v[:1] + strings.ToLower(v[1:])
+				case 2:
+					v = strings.NewReplacer("S", "\u017f", "K", "\u212a").Replace(v)
+				case 3:
+					b := []byte(v)
+					k := rng.Intn(len(b))
+					if b[k] >= 'A' && b[k] <= 'Z' {
+						b[k] += 'a' - 'A'
+					}
+					v = string(b)
+				}
+				lines[i] = l[:st[0]] + v + l[st[1]:]
 			}
 		case 8: // insert a stray tag
 			stray := []string{"#EXTINF:", "#EXTINF:1", "#EXT-X-PART:", "#EXT-X-STREAM-INF:", "#EXT-X-MEDIA:TYPE=AUDIO", "#EXT-X-MAP:URI=\"\"", "#EXT-X-PRELOAD-HINT:TYPE=PART,URI=\"\"", "#EXT-X-PRELOAD-HINT:TYPE=MAP,URI=\"init.mp4\"", "#EXT-X-PRELOAD-HINT:TYPE=MAP", "#EXT-X-PRELOAD-HINT:URI=\"p.mp4\"", "#EXT-X-MEDIA:TYPE=CLOSED-CAPTIONS,GROUP-ID=\"c\",NAME=\"n\",INSTREAM-ID=\"CC1\"",
